@@ -82,13 +82,25 @@ def first_fit(prog):
         elif names == ["[]::iter"] and root[0] == "param" and main is None:
             main = lm          # the index is a manually maintained counter (checked below)
             m.F = root
+        elif main is None and lm.source is not None and lm.source[0] == "adt" and lm.source[2] == "Range":
+            # `for idx in 0..fragments.len()`: the item is the index, the fragment is fragments[idx]
+            f = dict(lm.source[3])
+            en = f.get("end")
+            if f.get("start") == ("int", 0) and en is not None and en[0] == "call" and en[1] in ("[]::len", "Vec::len") \
+                    and en[2][0][0] == "param":
+                main = lm
+                m.F = en[2][0]
+                m.range_index = True
     if main is None:
         raise AnchorMissing("%s: no loop over <param>.iter().enumerate()" % key)
     m.lm = main
     from ..idioms import FirstIter
     fi = FirstIter(prog, body, main)
     counter_pk = None
-    if fi.idx is not None:
+    if getattr(m, "range_index", False):
+        m.idx = main.item
+        m.frag = ("index", m.F, m.idx)
+    elif fi.idx is not None:
         m.idx = main.item_proj(0)
         m.frag = main.item_proj(1)
     else:
